@@ -4,8 +4,16 @@ Theorems over `expandedSynsetRelations`, `synsetIterRelations`, `mkWordnet` (`Mo
 -/
 import WnVerif.Model.Api
 import WnVerif.Lemmas.DbAux
+import WnVerif.Gen.Misc
 namespace WnVerif.Props.C12
 open WnVerif.Db WnVerif.Glob
+
+/-- tie to the source: the id of the placeholder synset and its pseudo rowid -/
+theorem C12_gen_inferred (ili : String) (lex : Nat) :
+    (inferred ili lex).id = Gen.inferred_synset ∧ (inferred ili lex).rowid = Gen.non_rowid := by
+  constructor
+  · show "*INFERRED*" = Gen.inferred_synset; decide
+  · show 0 = Gen.non_rowid; decide
 
 /-- the expand-lexicon synsets sharing x's ILI (other than x itself) -/
 def expandSources (db : Db) (w : Wordnet) (x : SynsetData) (ili : String) : List SynsetData :=
